@@ -408,7 +408,7 @@ func genIncompatible(rng *rand.Rand) (target reflect.Type, source reflect.Value,
 }
 
 func c20(c *wk.Ctx) {
-	c.Note("rule", "streams: compat = a random pair (S,T) of structurally compatible Go types generated together (same-signedness integer widening incl. int/uint, float32->float64, string, bool, slices, maps with scalar keys, structs with permuted field order and varied letter case, depth <= 4/6) and a random edge-biased value s of S: ConvertFrom(&t, s) must succeed and equal the reference conversion, ConvertFrom(&s2, t) must recover s, a second source type with the same fields in another order must convert into the same target type with the same result, and DecodeFrom (the Proxy.Call2 path) must give the same t from the encoding of s; incompat = pairs that must be refused (bool/int, string/number, float/int, slice/map, container/scalar, struct/container), bare and nested in a slice, map value or struct field. Distinct non-trivial = distinct pair shapes containing a composite or a width change.")
+	c.Note("rule", "streams: compat = a random pair (S,T) of structurally compatible Go types generated together (same-signedness integer widening incl. int/uint, float32->float64, string, bool, slices, maps with scalar keys, structs with permuted field order and varied letter case, depth <= 4/6) and a random edge-biased value s of S: ConvertFrom(&t, s) must succeed and equal the reference conversion, ConvertFrom(&s2, t) must recover s, a second source type with the same fields in another order must convert into the same target type with the same result, and DecodeFrom (the Proxy.Call2 path) must give the same t from the encoding of s, also right after a DecodeFrom of the same wire type that failed on a truncated encoding; incompat = pairs that must be refused (bool/int, string/number, float/int, slice/map, container/scalar, struct/container), bare and nested in a slice, map value or struct field. Distinct non-trivial = distinct pair shapes containing a composite or a width change.")
 	depth := c.Pick(4, 6)
 	c.Cases("compat", c.Pick(100000, 6000000), func(i int, rng *rand.Rand) {
 		n := genNode(rng, 1+rng.Intn(depth))
@@ -477,6 +477,29 @@ func c20(c *wk.Ctx) {
 		// DecodeFrom path (Proxy.Call2 with a differing return signature)
 		var buf bytes.Buffer
 		if err := encoding.NewEncoder(encoding.DefaultCap(), &buf).Encode(s.Interface()); err == nil {
+			if i%3 == 0 {
+				// first a call that FAILS for the same wire type (another value, its encoding cut short): whatever it
+				// decoded before failing must not show up in the next, valid, conversion
+				s0 := reflect.New(sT).Elem()
+				b0 := 40
+				n.gen(rng, s0, &b0)
+				var buf0 bytes.Buffer
+				if encoding.NewEncoder(encoding.DefaultCap(), &buf0).Encode(s0.Interface()) == nil && buf0.Len() > 1 {
+					cut := buf0.Bytes()[:1+rng.Intn(buf0.Len()-1)]
+					t0 := reflect.New(tT)
+					var err0 error
+					pv, stack = wk.Try(func() {
+						err0 = conversion.DecodeFrom(encoding.NewDecoder(encoding.DefaultCap(), bytes.NewReader(cut)), t0.Interface(), sT)
+					})
+					if pv != nil {
+						c.Viol("compat", i, "decodefrom=panic/"+wk.PanicSite(stack), fmt.Sprintf("DecodeFrom panicked on a truncated encoding: %v", pv), detail)
+						return
+					}
+					if err0 != nil {
+						c.Count("decodefrom_failed_call_before_the_valid_one", 1)
+					}
+				}
+			}
 			t3 := reflect.New(tT)
 			pv, stack = wk.Try(func() {
 				err = conversion.DecodeFrom(encoding.NewDecoder(encoding.DefaultCap(), bytes.NewReader(buf.Bytes())), t3.Interface(), sT)
